@@ -45,7 +45,7 @@ func (c cell) coord() string {
 }
 
 func (c cell) priv() (local, internal bool) {
-	if c.Obs == "api" {
+	if c.Obs == "api" || c.Obs == "ws" {
 		return false, false
 	}
 	return c.Obs[0] == 'L', c.Obs[1] == 'I'
@@ -94,7 +94,7 @@ func howsFor(flags int) []string {
 	if flags == 0 {
 		return []string{"meta"}
 	}
-	return []string{"meta", "opts", "call"}
+	return []string{"meta", "opts", "call", "putnew-meta", "putnew-opts", "putnew-reload"}
 }
 
 // coordsFor lists the table coordinates of one table child (one flag set).
@@ -150,6 +150,8 @@ func expectedCells(sp spec) int {
 		return len(reflagCells(sp))
 	case "failmod":
 		return failmodCells(sp)
+	case "ws":
+		return len(wsCells(sp))
 	}
 	return 0
 }
@@ -283,11 +285,17 @@ func (w *world) runCell(c cell) {
 	}
 	x.tok = tok
 	x.s0 = w.audit(x.key)
-	if err != nil || !x.s0.Exists || x.s0.Flags != initF || !strings.Contains(x.s0.Data, tok) {
+	if err != nil || !x.s0.Exists || !strings.Contains(x.s0.Data, tok) {
 		w.b.Inconclusive("cell %s: privileged setup failed (err=%v, read-back %+v)", c.sig(), err, x.s0)
 		return
 	}
-	if c.Obs == "api" {
+	if x.s0.Flags != initF {
+		// The stored record does not carry the flags its privileged writer gave
+		// it. Not a verdict by itself (nobody has seen it yet): the expectation
+		// stays what the writer marked, and the observer's operation decides.
+		w.b.Count("stored_flags_differ_from_written", 1)
+	}
+	if c.Obs == "api" || c.Obs == "ws" {
 		x.runAPI()
 	} else {
 		x.runIface(x.newObserver())
@@ -329,7 +337,10 @@ func (x *exec) runLate() {
 	tok, err := w.privPut(x.key, c.F, c.H, c.K)
 	x.tok = tok
 	x.s0 = w.audit(x.key)
-	if perr != nil || err != nil || !x.s0.Exists || x.s0.Flags != c.F || !strings.Contains(x.s0.Data, tok) {
+	if x.s0.Exists && x.s0.Flags != c.F {
+		w.b.Count("stored_flags_differ_from_written", 1) // see runCell
+	}
+	if perr != nil || err != nil || !x.s0.Exists || !strings.Contains(x.s0.Data, tok) {
 		w.b.Inconclusive("cell %s: setup failed (observer put err=%v, privileged err=%v, read-back %+v)", c.sig(), perr, err, x.s0)
 		return
 	}
@@ -366,11 +377,20 @@ func (x *exec) detail(extra map[string]any) map[string]any {
 
 // pathSig is the path part of a violation signature: the storage is part of it where
 // the permission check lives in the storage's own code.
-func (x *exec) pathSig() string { return pathSig(x.c.Path, x.c.Backend) }
+func (x *exec) pathSig() string { return pathSig(x.pathName(), x.c.Backend) }
+
+// pathName is the path as it appears in signatures: the real websocket endpoint is
+// a different construction site of the API than CreateDatabaseAPI.
+func (x *exec) pathName() string {
+	if x.c.Obs == "ws" {
+		return "ws-" + strings.TrimPrefix(x.c.Path, "api-")
+	}
+	return x.c.Path
+}
 
 func pathSig(path, backend string) string {
 	switch path {
-	case "query", "query-where", "api-query", "api-qsub", "purge", "sub-push":
+	case "query", "query-where", "api-query", "api-qsub", "ws-query", "ws-qsub", "purge", "sub-push":
 		return path + ":" + backend
 	}
 	return path
@@ -398,7 +418,7 @@ func (x *exec) vsig(kind string, withClause bool) string {
 		// (one defect class whatever the flag: the stale-cache signatures carry no clause)
 		cl = clause(x.l, x.i, x.c.F)
 	}
-	return vsig(kind, x.c.Path, x.c.Backend, x.staleCache(), cl)
+	return vsig(kind, x.pathName(), x.c.Backend, x.staleCache(), cl)
 }
 
 // hand judges what was handed to the observer: no record object / key of a refused
@@ -443,7 +463,7 @@ func bytesJoin(bs [][]byte) []byte {
 }
 
 func (x *exec) scan(texts ...[]byte) {
-	x.w.scanFor(x.l, x.i, x.c.Path, x.staleCache(), func(t string) bool { return x.own[t] }, func() map[string]any { return x.detail(nil) }, texts...)
+	x.w.scanFor(x.l, x.i, x.pathName(), x.staleCache(), func(t string) bool { return x.own[t] }, func() map[string]any { return x.detail(nil) }, texts...)
 }
 
 // scanFor is the token scan: every token found must belong to a record version the
@@ -849,6 +869,7 @@ func (w *world) bulkCheck() {
 		l, i  bool
 		cache bool
 		api   bool
+		ws    bool
 		keys  map[string]bool
 	}
 	var views []*view
@@ -858,11 +879,21 @@ func (w *world) bulkCheck() {
 		}
 	}
 	views = append(views, &view{name: "api", api: true, keys: map[string]bool{}})
+	if w.srv != nil {
+		views = append(views, &view{name: "ws", api: true, ws: true, keys: map[string]bool{}})
+	}
 	// list runs the observer's query once, scans everything handed over and adds the
 	// listed keys to the view
 	list := func(v *view, try int) error {
 		if v.api {
 			a := newAPIConn(w)
+			if v.ws {
+				var err error
+				if a, err = w.newWSConn(); err != nil {
+					return err
+				}
+				defer a.ws.Close()
+			}
 			id := fmt.Sprintf("9%d", try)
 			msgs, ok := a.query(id, "query "+w.db+":c/")
 			if !ok {
@@ -872,8 +903,8 @@ func (w *world) bulkCheck() {
 				if k, isRec := apiRecordKey(m, id); isRec {
 					v.keys[k] = true
 				}
-				w.scanFor(false, false, "bulk-api-query:"+w.backend, false, nil, func() map[string]any {
-					return map[string]any{"child": w.sp, "observer": "api", "message": clip(string(m))}
+				w.scanFor(false, false, "bulk-"+v.name+"-query:"+w.backend, false, nil, func() map[string]any {
+					return map[string]any{"child": w.sp, "observer": v.name, "message": clip(string(m))}
 				}, m)
 				if isType(id, "error")(m) {
 					return errors.New(clip(string(m)))
@@ -942,7 +973,11 @@ func (w *world) bulkCheck() {
 			switch {
 			case v.keys[k] && !p:
 				okAll = false
-				w.b.Violation(prop+":returned:bulk-query:"+w.backend+":"+clause(v.l, v.i, f),
+				bq := "bulk-query:"
+				if v.ws {
+					bq = "bulk-ws-query:"
+				}
+				w.b.Violation(prop+":returned:"+bq+w.backend+":"+clause(v.l, v.i, f),
 					fmt.Sprintf("a query over the whole database listed a %s record for observer %s", flagNames[f], v.name),
 					map[string]any{"child": w.sp, "observer": v.name, "key": k, "flags": flagNames[f]})
 			case !v.keys[k] && p:
